@@ -159,7 +159,8 @@ pub fn scenarios(tier: Tier) -> Vec<Scenario> {
         if !client.is_empty() {
             prog = prog.thread("c0", client);
         }
-        let mut main = vec![Op::SpawnAll, Op::JoinAll];
+        // "race-*": stop() is called while the clients are still handing work over
+        let mut main = if name.starts_with("race") { vec![Op::SpawnAll] } else { vec![Op::SpawnAll, Op::JoinAll] };
         if gated {
             main.extend([Op::Quiesce, Op::OpenGate(1, 8)]);
         }
@@ -182,6 +183,8 @@ pub fn scenarios(tier: Tier) -> Vec<Scenario> {
     add("panic", 1, vec![Act::new(100).eff(0, EFF_PANIC_TASK), Act::new(101).eff(0, EFF_TASK)], vec![], false, false, 2);
     add("gated", 1, vec![Act::new(100).eff(0, EFF_GATED_TASK), Act::new(101), Act::new(102).eff(0, EFF_TASK)], vec![], false, true, 2);
     add("client", 1, vec![Act::new(100)], vec![Op::ClientThunk(500), Op::ClientTask(501)], false, false, 2);
+    add("race-client-task", 1, vec![], vec![Op::ClientTask(501)], false, false, 3);
+    add("race-client-thunk", 1, vec![Act::new(100)], vec![Op::ClientThunk(500)], false, false, 2);
     if tier == Tier::Thorough {
         for &k1 in &kinds {
             for &k2 in &kinds {
@@ -190,6 +193,7 @@ pub fn scenarios(tier: Tier) -> Vec<Scenario> {
         }
         add("keep+effect", 1, vec![Act::new(100).keep(1).eff(0, EFF_TASK), Act::new(101).keep(1).eff(0, EFF_ACTION), Act::new(102)], vec![], false, false, 3);
         add("panic+client", 1, vec![Act::new(100).eff(0, EFF_PANIC_TASK), Act::new(101).eff(0, EFF_THUNK_DISPATCH)], vec![Op::ClientThunk(500)], false, false, 2);
+        add("race-client-both", 1, vec![Act::new(100).eff(0, EFF_TASK)], vec![Op::ClientTask(501), Op::ClientThunk(500)], false, false, 3);
         add("removed-b3", 2, vec![Act::new(100).eff(0, EFF_TASK).eff(1, EFF_THUNK)], vec![], true, false, 3);
     }
     v
